@@ -5,6 +5,7 @@
 -/
 import LyonVerif.Drive.Common
 import LyonVerif.Drive.SlabIO
+import LyonVerif.Model.Tess.StrokeQuad
 
 namespace Lyon.Drive.C06
 open Lyon Lyon.Drive
@@ -12,7 +13,42 @@ open Lyon Lyon.Drive
 /-- token 0 names the call site / clause prefix (lets the harness classify narrowly) -/
 def chk (v : Array String) : String := SlabIO.handle (v.getD 0 "stroke") false v 1
 
+section
+open Lyon.StrokeQuad
+variable {α : Type} [Scalar α] [Transc α] [Wire α]
+
+def joinOf : String → Join
+  | "miter" => .miter | "miterclip" => .miterClip | "round" => .round | _ => .bevel
+def capOf : String → Cap
+  | "butt" => .butt | "square" => .square | _ => .round
+
+/-- `normal v1 v2` → `math_utils::compute_normal` -/
+def hNormal (v : Array String) : String := fp (Lyon.Stroke.computeNormal (rdP (α := α) v 0) (rdP v 2))
+
+def showTri (t : Lyon.Stroke.Tri) : String := toString t.1 ++ " " ++ toString t.2.1 ++ " " ++ toString t.2.2
+
+/-- how the stroker intersects two lines: `to_f64()`, `Line::intersection`, `to_f32()` -/
+class IxVia (α : Type) where
+  ix : Ix α
+
+def w64 (p : P Float32) : P Float := ⟨p.x.toFloat, p.y.toFloat⟩
+def n32 (p : P Float) : P Float32 := ⟨p.x.toFloat32, p.y.toFloat32⟩
+instance : IxVia Float32 where
+  ix p1 v1 p2 v2 := (lineIntersection (α := Float) (Scalar.ofSci 1 8) (w64 p1) (w64 v1) (w64 p2) (w64 v2)).map n32
+instance : IxVia Float where
+  ix := lineIntersection (Scalar.ofSci 1 8)
+
+/-- `stroke2 a j b width miter_limit join cap1 cap2` → the whole mesh of the open polyline a, j, b -/
+def hStroke2 [IxVia α] (v : Array String) : String :=
+  let w : α := rd v 6
+  let m := stroke2 IxVia.ix (rdP (α := α) v 0) (rdP v 2) (rdP v 4) (w * Scalar.half) (rd v 7)
+    (joinOf (v.getD 8 "")) (capOf (v.getD 9 "")) (capOf (v.getD 10 ""))
+  unwords (["ok", toString m.verts.length, toString m.tris.length, "v"] ++ m.verts.map fp ++ ["t"] ++ m.tris.map showTri)
+end
+
 def families : List Family := [
+  ⟨"normal", hNormal (α := Float32), hNormal (α := Float)⟩,
+  ⟨"stroke2", hStroke2 (α := Float32), hStroke2 (α := Float)⟩,
   Family.plain "chk_cover" chk,
   Family.plain "chk_reach" chk,
   Family.plain "chk_round_in" chk,
